@@ -17,7 +17,7 @@ evaluation) instead, each marked where it occurs: `Rat` arithmetic (TieA14's sta
 `#guard` next to it evaluates it to `true`; in addition the theorem is applied entirely in the kernel to an input on which no
 well-founded recursion is entered (`tfFlat`).
 -/
-namespace Gaftools.NonVacuous
+namespace Gaftools.NonVacuousC
 
 /-! ## TieA14 : `stat.run_stat` -/
 section A14
@@ -790,4 +790,4 @@ example (g g' : Graph) (tagv : String → String → Option Int) (l : List Strin
   some ["d:BO:i:2", "c:BO:i:1", "b:BO:i:1", "a:BO:i:0"]
 end A21
 
-end Gaftools.NonVacuous
+end Gaftools.NonVacuousC
